@@ -4,9 +4,11 @@
   Model: GIV.Model.Build (mirrors build.go; constants and deciding expressions from
   GIV.Gen.ImportsBuild).  Specification: GIV.Lemmas.ImportsBuildSpec (Term / Line / evalLine,
   linesOf / leadingBlock, suffixUnselected), written from the property statement with the
-  property's own constants.  All theorems hold for every non-ASCII letter-or-digit predicate `U`.
+  property's own constants; GIV.Lemmas.ImportsBuildSuffix (stem, stripTest, SuffixUnselected): the
+  MatchFile rule read over suffixes of the file name.  All theorems hold for every non-ASCII letter-or-digit predicate `U`.
 -/
 import GIV.Lemmas.ImportsBuildProofs
+import GIV.Lemmas.ImportsBuildSuffix
 import GIV.Lemmas.ImportsBuildGoFile
 import GIV.Lemmas.ImportsBuildGoSB
 
@@ -84,6 +86,55 @@ example : fileSegsRev [120, 95, 119, 105, 110, 100, 111, 119, 115, 95, 97, 109, 
 -- bytes of: "amd64" | "windows"
 example : suffixUnselected exTags [[97, 109, 100, 54, 52], [119, 105, 110, 100, 111, 119, 115], []] :=
   Or.inl ⟨_, _, _, rfl, by decide, by decide, Or.inl (by decide)⟩
+
+/-- `MatchFile`, read over SUFFIXES of the name as the property states it (no reference to the
+model's split): false exactly when `*` is not set and the name's stem (the part before the first
+'.'), a final "_test" removed, ends in `_GOOS_GOARCH`, `_GOOS` or `_GOARCH` — the '_' included —
+for a known OS / architecture that the tags, android also selecting linux, do not select. -/
+theorem matchFile_suffix_reading (U : Nat → Bool) (name : Bytes) (tags : Tags) :
+    matchFile U name tags = false ↔
+      tags star = false ∧
+      ((∃ o a, knownOS o = true ∧ knownArch a = true ∧
+          (95 :: (o ++ 95 :: a)) <:+ stripTest (stem name) ∧ (sel tags o = false ∨ sel tags a = false)) ∨
+       (∃ t, (knownOS t = true ∨ knownArch t = true) ∧
+          (95 :: t) <:+ stripTest (stem name) ∧ sel tags t = false)) :=
+  matchFile_suffix_spec U name tags
+
+/-- `stem` and `stripTest` of the suffix reading are what their names say, in terms of prefixes and
+suffixes only: the stem is the prefix of the name without '.' that is the whole name or is followed
+by '.'; `stripTest` removes one final "_test" and leaves every other string alone; and the known
+tokens contain neither '_' nor '.', so "ends in `_T`" determines `T`. -/
+theorem suffix_reading_notions (name p s t : Bytes) :
+    (stem name <+: name ∧ (46 : UInt8) ∉ stem name ∧ (stem name = name ∨ stem name ++ [46] <+: name)) ∧
+    stripTest (p ++ 95 :: testWord) = p ∧
+    (¬ (95 :: testWord) <:+ s → stripTest s = s) ∧
+    (knownOS t = true ∨ knownArch t = true → t ≠ [] ∧ (95 : UInt8) ∉ t ∧ (46 : UInt8) ∉ t) :=
+  ⟨⟨stem_prefix name, stem_no_dot name, stem_spec name⟩, stripTest_of_suffix p,
+   stripTest_of_not_suffix s, known_clean t⟩
+
+/-- a second example environment: tags = {android, arm64}. -/
+def exTagsArm : Tags := fun t => t == android || t == [97, 114, 109, 54, 52]
+
+-- "x_windows_amd64_test.go" under {android, amd64}: the stem without "_test" is "x_windows_amd64",
+-- it ends in _windows_amd64 and windows is not selected: rejected
+-- bytes of: "x_windows_amd64_test.go" | "x_windows_amd64"
+example : stripTest (stem [120, 95, 119, 105, 110, 100, 111, 119, 115, 95, 97, 109, 100, 54, 52, 95, 116, 101, 115, 116, 46, 103, 111]) = [120, 95, 119, 105, 110, 100, 111, 119, 115, 95, 97, 109, 100, 54, 52] := by decide
+example : SuffixUnselected exTags [120, 95, 119, 105, 110, 100, 111, 119, 115, 95, 97, 109, 100, 54, 52, 95, 116, 101, 115, 116, 46, 103, 111] ∧
+    matchFile exU [120, 95, 119, 105, 110, 100, 111, 119, 115, 95, 97, 109, 100, 54, 52, 95, 116, 101, 115, 116, 46, 103, 111] exTags = false := by decide
+-- "x_linux.go" under {android, arm64}: ends in _linux, which android selects: accepted
+example : ¬ SuffixUnselected exTagsArm [120, 95, 108, 105, 110, 117, 120, 46, 103, 111] ∧
+    matchFile exU [120, 95, 108, 105, 110, 117, 120, 46, 103, 111] exTagsArm = true := by decide
+-- … and rejected without android ({arm64} only)
+example : SuffixUnselected (fun t => t == [97, 114, 109, 54, 52]) [120, 95, 108, 105, 110, 117, 120, 46, 103, 111] := by decide
+-- "linux.go": no '_' before the token, unconstrained under every tag set
+example (tags : Tags) : ¬ SuffixUnselected tags [108, 105, 110, 117, 120, 46, 103, 111] ∧
+    matchFile exU [108, 105, 110, 117, 120, 46, 103, 111] tags = true := by
+  refine ⟨linux_go_unconstrained tags, ?_⟩
+  cases h : matchFile exU [108, 105, 110, 117, 120, 46, 103, 111] tags with
+  | true => rfl
+  | false => exact absurd ((matchFile_suffix_spec _ _ _).mp h).2 (linux_go_unconstrained tags)
+-- "_windows.go" (empty prefix) IS constrained; further corner cases: GIV/Lemmas/ImportsBuildSuffix.lean
+example : SuffixUnselected exTagsArm [95, 119, 105, 110, 100, 111, 119, 115, 46, 103, 111] := by decide
 
 /-- With `*` set MatchFile accepts every name, and ShouldBuild accepts every file in which each
 +build line of the leading block has an option made of well-formed terms none of which names
@@ -164,6 +215,25 @@ theorem go_MatchFile_spec (isLetter isDigit : Int → Bool) (hU : UnicodeOK isLe
       (b = false ↔ tags star = false ∧ ∃ rl, fileSegsRev name = some rl ∧ suffixUnselected tags rl)) :=
   ⟨_, go_MatchFile_eq isLetter isDigit hU name tags, matchFile_false_iff _ name tags⟩
 
+open GIV.Go.Build in
+/-- `MatchFile` of the source never panics, and its result is false exactly when `*` is not set and
+the name ends — stem, a final "_test" removed — in an unselected `_GOOS_GOARCH`, `_GOOS` or `_GOARCH`. -/
+theorem go_MatchFile_suffix_reading (isLetter isDigit : Int → Bool) (hU : UnicodeOK isLetter isDigit)
+    (name : Bytes) (tags : Tags) :
+    (∃ b, GIV.Go.Build.MatchFile isLetter isDigit name tags = some b) ∧
+    ∀ b, GIV.Go.Build.MatchFile isLetter isDigit name tags = some b →
+      (b = false ↔
+        tags star = false ∧
+        ((∃ o a, knownOS o = true ∧ knownArch a = true ∧
+            (95 :: (o ++ 95 :: a)) <:+ stripTest (stem name) ∧ (sel tags o = false ∨ sel tags a = false)) ∨
+         (∃ t, (knownOS t = true ∨ knownArch t = true) ∧
+            (95 :: t) <:+ stripTest (stem name) ∧ sel tags t = false))) := by
+  refine ⟨⟨_, go_MatchFile_eq isLetter isDigit hU name tags⟩, ?_⟩
+  intro b hb
+  rw [go_MatchFile_eq isLetter isDigit hU name tags, Option.some.injEq] at hb
+  subst hb
+  exact matchFile_suffix_spec _ name tags
+
 /-- ASCII-only instance of the Unicode tables, for the closed examples below. -/
 def exIsLetter (c : Int) : Bool := (decide (65 ≤ c) && decide (c ≤ 90)) || (decide (97 ≤ c) && decide (c ≤ 122))
 def exIsDigit (c : Int) : Bool := decide (48 ≤ c) && decide (c ≤ 57)
@@ -182,5 +252,12 @@ theorem exUnicodeOK : GIV.Go.Build.UnicodeOK exIsLetter exIsDigit := by
 example : GIV.Go.Build.matchTags exIsLetter exIsDigit [108,105,110,117,120, 44, 33, 119,105,110,100,111,119,115] exTags = some true := by decide
 example : GIV.Go.Build.MatchFile exIsLetter exIsDigit [120, 95, 119, 105, 110, 100, 111, 119, 115, 95, 97, 109, 100, 54, 52, 95, 116, 101, 115, 116, 46, 103, 111] exTags = some false := by decide +kernel
 example : GIV.Go.Build.ShouldBuild exIsLetter exIsDigit [47, 47, 32, 43, 98, 117, 105, 108, 100, 32, 119, 105, 110, 100, 111, 119, 115, 10, 10, 112, 97, 99, 107, 97, 103, 101, 32, 112, 10] exTags = some false := by decide
+
+-- the suffix reading on the generated definitions: "x_linux.go" under {android, arm64} is accepted,
+-- "x_windows_amd64_test.go" under {android, amd64} is rejected (above) and satisfies the suffix condition
+example : GIV.Go.Build.MatchFile exIsLetter exIsDigit [120, 95, 108, 105, 110, 117, 120, 46, 103, 111] exTagsArm = some true := by decide +kernel
+example : ∃ b, GIV.Go.Build.MatchFile exIsLetter exIsDigit [120, 95, 119, 105, 110, 100, 111, 119, 115, 95, 97, 109, 100, 54, 52, 95, 116, 101, 115, 116, 46, 103, 111] exTags = some b ∧ b = false ∧
+    exTags star = false ∧ SuffixUnselected exTags [120, 95, 119, 105, 110, 100, 111, 119, 115, 95, 97, 109, 100, 54, 52, 95, 116, 101, 115, 116, 46, 103, 111] :=
+  ⟨false, by decide +kernel, rfl, by decide, by decide⟩
 
 end GIV.C19
